@@ -15,8 +15,9 @@ VARIABLES l, cf,
           rdoff,  \* rdoff[c]: bytes read so far at connection c
           fec,    \* fec[flow]: last FEC sequence id seen on the flow (relative to its first)
           pf,     \* for the datagram line just consumed: the flow's previous FEC id (-1: none yet, -2: not applicable)
-          en      \* for the read line just consumed: the length of the message that was next (-1: not applicable)
-ovars == <<l, cf, exp, rdoff, fec, pf, en>>
+          en,     \* for the read line just consumed: the number of bytes that Read had to return (-1: not applicable)
+          rem     \* rem[c]: message mode: bytes of the message that reader c is in the middle of (0: at a message boundary)
+ovars == <<l, cf, exp, rdoff, fec, pf, en, rem>>
 Conns == {"cli", "srv"}
 OtherEnd(c) == IF c = "cli" THEN "srv" ELSE "cli"
 
@@ -28,7 +29,7 @@ PopMsg(q) == IF q[1].left <= q[1].mss THEN Tail(q) ELSE <<[q[1] EXCEPT !.left = 
 Init == /\ l = 1
         /\ cf = [cipher |-> "nil", d |-> 0, p |-> 0, stream |-> TRUE, closemid |-> FALSE, faulty |-> FALSE]
         /\ exp = [c \in Conns |-> <<>>] /\ rdoff = [c \in Conns |-> 0]
-        /\ fec = [f \in {} |-> 0] /\ pf = -2 /\ en = -1
+        /\ fec = [f \in {} |-> 0] /\ pf = -2 /\ en = -1 /\ rem = [c \in Conns |-> 0]
 
 Next ==
   /\ l <= Len(Trace) /\ l' = l + 1
@@ -37,13 +38,22 @@ Next ==
        THEN /\ cf' = [cipher |-> t.cfg.cipher, d |-> t.cfg.d, p |-> t.cfg.p, stream |-> t.cfg.stream, closemid |-> t.closemid,
                       faulty |-> t.faulty]
             /\ exp' = [c \in Conns |-> <<>>] /\ rdoff' = [c \in Conns |-> 0] /\ fec' = [f \in {} |-> 0] /\ pf' = -2 /\ en' = -1
+            /\ rem' = [c \in Conns |-> 0]
        ELSE
        LET isfec == t.ev = "dg" /\ ~t.injected /\ t.fecon /\ t.cryptok /\ t.fectype \in {241, 242}
            flow  == <<t.src, t.dst>>
-           msgrd == t.ev = "read" /\ ~cf.stream /\ exp[OtherEnd(t.conn)] # <<>>
+           (* the sequential meaning of Read in message mode: inside a message it returns min(buffer, rest of the message); at a *)
+           (* boundary it takes the next message (a Write is cut into messages of at most one MSS) and returns min(buffer, its   *)
+           (* length), the rest stays for the following Reads -- a Read never spans two messages                                *)
+           inmsg == t.ev = "read" /\ ~cf.stream /\ rem[t.conn] > 0
+           msgrd == t.ev = "read" /\ ~cf.stream /\ rem[t.conn] = 0 /\ exp[OtherEnd(t.conn)] # <<>>
+           want  == IF inmsg THEN Min(t.buf, rem[t.conn]) ELSE IF msgrd THEN Min(t.buf, NextMsg(exp[OtherEnd(t.conn)])) ELSE -1
        IN
        /\ pf' = IF isfec THEN (IF flow \in DOMAIN fec THEN fec[flow] ELSE -1) ELSE -2
-       /\ en' = IF msgrd THEN NextMsg(exp[OtherEnd(t.conn)]) ELSE -1
+       /\ en' = want
+       /\ rem' = IF inmsg THEN [rem EXCEPT ![t.conn] = @ - want]
+                 ELSE IF msgrd THEN [rem EXCEPT ![t.conn] = NextMsg(exp[OtherEnd(t.conn)]) - want]
+                 ELSE rem
        /\ cf' = cf
        /\ exp' = IF t.ev = "write" /\ t.n > 0 THEN [exp EXCEPT ![t.conn] = Append(@, [left |-> t.n, mss |-> t.mss])]
                  ELSE IF msgrd THEN [exp EXCEPT ![OtherEnd(t.conn)] = PopMsg(@)]
@@ -58,12 +68,17 @@ Genuine == Is("dg") /\ ~Obs.injected        \* a datagram emitted by a session t
 
 (* ---- C01 (session level) ---- *)
 C01_ReadIsNextBytes == Is("read") => Obs.ok /\ Obs.off = rdoff[Obs.conn] - Obs.n
-(* message mode: one Read (with a buffer that fits) returns exactly one message as written (Write cuts a buffer into *)
-(* messages of at most one MSS)                                                                                      *)
-C01_MessageBoundaries == Is("read") /\ en >= 0 /\ Obs.buf >= 65536 /\ ~cf.closemid => Obs.n = en
+(* message mode: Read returns exactly min(buffer, rest of the current message); a message is a chunk of at most one MSS  *)
+(* of a Write; see `want` above                                                                                          *)
+C01_MessageBoundaries == Is("read") /\ en >= 0 /\ ~cf.closemid => Obs.n = en
 
 (* ---- C02 / C03 (session level): a transfer that is not cut short by Close completes ---- *)
 C02_TransferCompletes == Is("end") /\ ~cf.closemid => Obs.complete
+
+(* ---- C04 (session level): a Write is admitted only while fewer than a send window of segments are pending ---- *)
+(* ("wadmit" is emitted under the session mutex in the branch of WriteBuffers that queues the data; waitsnd is computed *)
+(* by the hook from the two send rings, not taken from the code's own variable)                                        *)
+C04_WriteAdmission == Is("wadmit") => Obs.waitsnd < Obs.sndwnd
 
 (* ---- C09: frame layout, FEC numbering, nonce freshness ---- *)
 C09_Layout == Genuine => /\ Obs.cryptok                                  \* integrity field verifies under the reference cipher
@@ -107,4 +122,6 @@ C06_CounterOnly == Is("corrupt") => IF Obs.short THEN Obs.csum = 0 ELSE Obs.csum
 
 (* ---- C05: bounded state under garbage ---- *)
 C05_Bounds == Is("bounds") => Obs.rcvq <= Obs.rcvwnd /\ Obs.rcvb <= Obs.rcvwnd /\ Obs.sets <= 5
+(* C04 at session level: the same samples, plus the sender's outstanding segments *)
+C04_SessBounds == Is("bounds") => Obs.rcvq <= Obs.rcvwnd /\ Obs.rcvb <= Obs.rcvwnd /\ Obs.sndb <= Obs.sndwnd
 =============================================================================
